@@ -40,7 +40,7 @@ var nativeMethods = map[string][]string{
 	"zr":   {"Read", "Close"},
 	"zw":   {"Write", "Close"},
 	"crc":  {"Write", "Sum32", "Sum", "Reset", "Size", "BlockSize"},
-	"file": {"Write", "Close", "ReadAt", "Name", "Stat", "Read", "Seek"},
+	"file": {"Write", "Close", "ReadAt", "Name", "Stat", "Read", "Seek", "Sync"},
 	"info": {"Name", "Size", "IsDir", "Mode", "ModTime", "Sys"},
 	"err":  {"Error"},
 }
